@@ -15,7 +15,7 @@
    and at least one allele (what __init__ and ts.variants guarantee). *)
 From Coq Require Import List ZArith Bool.
 From TskVerif Require Import Base.Common Gen.Generated C16.Model C16.Spec C16.TemplateProofs C16.BodyProofs
-  C16.MappingProofs.
+  C16.MappingProofs C16.Decode C16.WrapperProofs C16.EndToEndProofs.
 Import ListNotations.
 Open Scope Z_scope.
 
@@ -158,3 +158,61 @@ Theorem header_names_and_contig :
 Proof.
   exact (conj header_names_spec (conj default_names_length (conj chrom_line_names contig_length_spec))).
 Qed.
+
+(* ---- final extension round ---- *)
+
+(* THE TOP THEOREM.  [vcf_end_to_end] (C16/Decode.v) is the writer from the tables:
+   __make_sample_mapping, the __init__ checks, C03's model of tsk_variant_init/decode on the
+   tree arrays at every site, VcfWriter.write.  Whenever it writes lines — under C03's own
+   hypotheses: at every site the arrays represent a forest [par_of s] of bounded height
+   (tree_rep; C01/C06), the mutations are in range and ordered as in a valid tree sequence —
+   the lines are exactly [line_text] of the unmasked sites for genotype rows that follow the
+   nearest-mutation rule column by column: MISSING iff isolated_as_missing and the node is
+   isolated without a mutation on it, otherwise the first index (among that site's alleles) of
+   the state of the nearest mutation above the node, the ancestral state if there is none.
+   genotype_matrix does not occur. *)
+Theorem vcf_spells_nearest_mutation :
+  forall nodes flags ni ploidy individuals ts_map iam contig sites mask apz lines
+         (par_of : site_in -> Z -> option Z) (N : Z) (h : nat),
+  vcf_end_to_end nodes flags ni ploidy individuals (sample_ids nodes) ts_map iam contig sites mask apz = Ok lines ->
+  (forall (v : C03.Model.variant) s, In s sites ->
+     C03.Spec.tree_rep (par_of s) (C03.Model.default_fuel (si_tree s)) (si_tree s) v N
+     /\ C03.DecodeProofs.muts_in_range N (si_site s)
+     /\ C03.Spec.order_ok (par_of s) (C03.Model.s_mutations (si_site s))
+     /\ (forall u, C03.Spec.depth_le (par_of s) h u)) ->
+  exists groups sds,
+    make_sample_mapping nodes ni ploidy individuals = Ok groups
+    /\ lines = map (fun x => line_text contig (map zlen groups) (fst x) (snd x))
+                   (unmasked sds (mask_bools (length sds) mask))
+    /\ Forall2 (fun s sd =>
+         sd_pos sd = si_pos s /\ sd_sample_mask sd = si_sample_mask s
+         /\ length (sd_genotypes sd) = length (concat groups)
+         /\ forall k u, get (concat groups) k = Ok u ->
+              exists r, C03.Spec.nearest (par_of s) (C03.Model.s_mutations (si_site s)) u r /\
+                let missing := iam = true /\ C03.Spec.isolated (par_of s) u
+                               /\ C03.Spec.has_mut_on (C03.Model.s_mutations (si_site s)) u = false in
+                let state := C03.Spec.state_of (C03.Model.s_ancestral (si_site s)) r in
+                (missing /\ get (sd_genotypes sd) k = Ok (-1)) \/
+                (~ missing /\ get (sd_genotypes sd) k = Ok (C03.Model.allele_index (sd_alleles sd) state)
+                 /\ get (sd_alleles sd) (C03.Model.allele_index (sd_alleles sd) state) = Ok state))
+       sites sds.
+Proof. exact EndToEndProofs.vcf_spells_nearest_mutation. Qed.
+
+(* its structural half, without any hypothesis: what a successful end-to-end run consists of *)
+Theorem vcf_end_to_end_inversion :
+  forall nodes flags ni ploidy individuals ts_samples ts_map iam contig sites mask apz lines,
+  vcf_end_to_end nodes flags ni ploidy individuals ts_samples ts_map iam contig sites mask apz = Ok lines ->
+  exists groups v sds,
+    make_sample_mapping nodes ni ploidy individuals = Ok groups
+    /\ C03.Model.variant_init flags ts_samples ts_map (writer_samples nodes individuals groups) None (negb iam) = Ok v
+    /\ Forall2 (fun s sd => site_of_decode v s = Ok sd) sites sds
+    /\ vcf_body_current (mk_input contig (map zlen groups) sds mask apz) = Ok lines.
+Proof. exact end_to_end_inversion. Qed.
+
+(* wrapper level (facts regenerated from the signatures / call sites in trees.py): write_vcf
+   hands each of its parameters to VcfWriter under the same name, as_vcf hands *args/**kwargs on *)
+Theorem write_vcf_forwards_every_keyword :
+  c16_vcfwriter_keywords = map forwarded_as_itself c16_write_vcf_params
+  /\ c16_write_vcf_params = write_vcf_documented_params
+  /\ c16_as_vcf_forwards_all = true.
+Proof. exact WrapperProofs.write_vcf_forwards_every_keyword. Qed.
